@@ -88,7 +88,15 @@ class Recorder:
                 setattr(nx, attr, o)
 
 
+class _Code(dict):
+    """coding of node names as numbers; a name that is not one of the case's nodes (a vertex the implementation invented or kept from an
+    earlier call) gets a number outside the coding, so that the Coq comparison fails instead of the printer"""
+    def __missing__(self, k):
+        return 900 + (sum(map(ord, str(k))) % 90)
+
+
 def cg(adj, code):
+    code = _Code(code)
     return "[" + "; ".join("(%d, [%s])" % (code[a], "; ".join("%d" % code[b] for b in l)) for a, l in adj.items()) + "]"
 
 
